@@ -5,3 +5,4 @@ pub mod loader;
 pub mod escape;
 pub mod loop_script;
 pub mod tables;
+pub mod realloop;
